@@ -63,3 +63,18 @@ Fixpoint alias_free (sch : schema) (h : heap) (ops : list (op * obs)) : bool :=
       ok && alias_free sch (fst (run_op sch h o)) r
   end.
 Definition premises (c : case) : bool := alias_free (c_sch c) (c_heap c) (c_ops c).
+
+(* A scenario in stages.  Between two stages the type system grows (create_feature on a type or on one of
+   its supertypes, after instances were created and after paths naming the future feature were looked up
+   and assignments through it refused); every stage is a case on the schema of that moment with the
+   structures created at that moment.  The model has no state besides (schema, heap): the same get / set
+   must explain every stage, whatever was looked up before. *)
+Definition mcase := list case.
+(* the stages of a scenario only add features (sch_leb of Paths.v, sound for sch_le: sch_leb_sound) *)
+Fixpoint growingb (m : mcase) : bool :=
+  match m with
+  | a :: ((b :: _) as r) => sch_leb (c_sch a) (c_sch b) && growingb r
+  | _ => true
+  end.
+Definition check_mcase (m : mcase) : bool := growingb m && forallb check_case m.
+Definition mpremises (m : mcase) : bool := forallb premises m.
